@@ -108,6 +108,11 @@ class Session:
             if len(data) == 1 and sc.get("single_unwrapped", True):
                 data = data[0]
             self.obj.append(data)
+        elif op == "collapse":
+            mgrs = ([self.obj.candle_manager] if sc["obj"] == "ind"
+                    else [i.candle_manager for i in self.inds])
+            for m in mgrs:
+                m.collapse_candles()
         elif op == "calculate":
             if sc["obj"] == "hex":
                 self.obj.calculate(step[1] or None)
